@@ -902,7 +902,8 @@ func rulesC08(r *Run) {
 		r.Paths += sub.Paths
 	}
 	ruleRunnerEndWrites(r, "R2")
-	r.Expect("R2", 3)
+	ruleRunActionWritesVerdict(r, "R2")
+	r.Expect("R2", 4)
 
 	r.Kind("R3", "K6")
 	total := 0
@@ -3387,4 +3388,56 @@ func ruleTerminalGroupNotRerun(r *Run, rule, fnKey, group string) {
 		}
 		r.Check(rule, ShortFn(fnKey)+":"+strings.TrimPrefix(st, "workflow.")+"-"+group+"-not-run-again", bpos, bad == "", "%s", orOK(bad, "a group whose verdict is durable is not run again"))
 	}
+}
+
+// ruleRunActionWritesVerdict (round-4 seed C08-8): whatever runAction answers for an action is durable when it answers. After a
+// crash fixAction gives an action stored Running with a finished attempt its verdict in memory only, fixBlock goes on with
+// the sequence at once, and runAction returns immediately for such an action: its write is the only thing that makes the
+// verdict durable before the next action of the sequence is invoked. Every returning path of runAction (the test hook aside)
+// writes the action, in place or deferred.
+func ruleRunActionWritesVerdict(r *Run, rule string) {
+	fn := r.fnByKey(rule, smKey("runAction"))
+	if fn == nil {
+		return
+	}
+	fl, paths, ok := r.flowPaths(rule, fn)
+	if !ok {
+		return
+	}
+	info := fl.Info
+	bad := ""
+	var bpos token.Pos = fn.Decl.Pos()
+	n := 0
+	for i := range paths {
+		p := &paths[i]
+		if p.Exit != ExitReturn {
+			continue
+		}
+		hook, wrote := false, false
+		for _, e := range p.Ev {
+			if Establishes(info, e, fieldMatcher(info, "", "testActionRunner"), "nil", false) {
+				hook = true
+			}
+			if name, ok := isUpdaterCall(e); ok && name == "UpdateAction" && !e.Maybe {
+				wrote = true
+			}
+		}
+		if hook {
+			continue
+		}
+		n++
+		if !wrote && bad == "" {
+			bad = "a path of runAction returns without writing the action (exit guard " + ExitGuardKey(fl, p) + "): a verdict recovery gave the action in memory is acted upon — the next action of the sequence is invoked — while the store still shows the action Running"
+			for _, e := range p.Ev {
+				if e.Kind == EvReturn && !e.Deferred && e.Depth == 0 {
+					bpos = e.Pos
+				}
+			}
+		}
+	}
+	if n == 0 {
+		r.Unresolved(rule, "returning paths of runAction")
+		return
+	}
+	r.Check(rule, "runAction:verdict-written-on-every-exit", bpos, bad == "", "%s", orOK(bad, "UpdateAction on every returning path"))
 }
